@@ -301,9 +301,16 @@ def _one_message(rnd, cfg, relay, got, edge_rcpt, clients, live, msgno):
     if not (cfg['ext'].get('8BITMIME', True) and not cfg['helo_fallback']):
         hdr = hdr if hdr.isascii() else HEADERS[0]
         body = body if body.isascii() else BODIES[0]
-    env = Envelope(sender, rcpts)
-    env.parse(hdr + b'\r\n' + body)
+    # the message is handed to the relay as header object + body bytes (not parsed by the library first: what the receiving
+    # side makes of the bytes on the wire is the hop's business, what a parse on the sending side does is C20's)
+    from email.parser import BytesParser
+    from email.policy import SMTP as _SMTP
+    env = Envelope(sender, rcpts, BytesParser(policy=_SMTP).parsebytes(hdr, headersonly=True), body)
     h0, b0 = env.flatten()
+    if h0 != hdr + b'\r\n':          # (a header block the generator writes differently than the library re-writes it: parse as before)
+        env = Envelope(sender, rcpts)
+        env.parse(hdr + b'\r\n' + body)
+        h0, b0 = env.flatten()
     accepted = [r for r in rcpts if 'reject' not in r]
     sent = {'sender': list(sender.encode('utf-8')), 'rcpts': [list(r.encode('utf-8')) for r in accepted], 'content': list(h0 + b0)}
     res = {'t': 'result', 'edge_code': cfg['reject'] or 250, 'relay': 'other', 'relay_code': 0, 'per': [], 'edge_per': edge_rcpt}
